@@ -127,8 +127,13 @@ class TimerQueue(object):
       raise Exception("action must be non-null")
 
     if self._resolution:
-      deadline = int(
+      rounded = int(
         math.ceil(float(deadline) / self._resolution)) * self._resolution
+      if rounded < deadline:
+        # The float division can round down to a whole number of quanta, never
+        # go below the requested deadline.
+        rounded += self._resolution
+      deadline = rounded
 
     self._seq += 1
     timeout_args = [deadline, self._seq, False, action]
